@@ -384,3 +384,28 @@ def bundle_backrefs_of_held_instances(repo: Repo, R):
                     why="`m.i = A(bp=m.b); m.i = A2(bp2=m.b)`: the displaced first instance is still listed by the bundle; flattening re-connects it against its never-flattened module and the valid design is refused (`Invalid Port Connection to bp`)")
     if n < 2:
         raise AnalysisError(f"anchor-vanished: {n} re-connection loop(s) over `_connected_ports` in {F_FLATB}; 2 were confirmed by reading")
+    # the same holds for every reader of the back-references during elaboration: a connectable lists ports of instances the
+    # module no longer holds, so whoever walks the list looks only at held ones — or is one of the two confirmed exceptions
+    # (the re-connection that declines them itself; update_ref_deps, which re-points every listed port to what the reference
+    # resolved to — harmless for an instance in no module)
+    m_ = 0
+    for fi in repo.funcs_in("hdl21/elab/"):
+        sites = []
+        for x in au.walk_no_nested(fi.node):
+            if isinstance(x, ast.For) and "_connected_ports" in ast.unparse(shared.prov(fi.node, x.iter)):
+                sites.append((x, x.body, ast.unparse(x.target)))
+            elif isinstance(x, (ast.ListComp, ast.SetComp, ast.GeneratorExp, ast.DictComp)):
+                for g in x.generators:
+                    if "_connected_ports" in ast.unparse(shared.prov(fi.node, g.iter)):
+                        sites.append((x, [ast.Expr(i) for i in g.ifs] + [ast.Expr(e) for e in ([x.elt] if hasattr(x, "elt") else [x.key, x.value])], ast.unparse(g.target)))
+        for node, body, tv in sites:
+            m_ += 1
+            txt = " ".join(ast.unparse(b) for b in body)
+            filtered = "_parent_module" in txt
+            only_declining = declines and bool(au.calls_in(ast.Module(body, []))) and all(ast.unparse(c.func) == "self.replace_bundle_conn" or not any(isinstance(n_, ast.Name) and n_.id == tv for a_ in c.args for n_ in ast.walk(a_)) for c in au.calls_in(ast.Module(body, [])))
+            confirmed = fi.qual == "update_ref_deps"
+            R.check(filtered or only_declining or confirmed, rule, key_of(fi, f"backref-readers-look-at-held-instances::{tv}"), fi.at(node),
+                    f"{fi.name} walks the ports listed by a connectable and " + ("tests whose module each one's instance is in" if filtered else "hands them only to the re-connection that declines instances in no module" if only_declining else "is the confirmed exception (re-points every listed port)" if confirmed else "takes every listed port at face value"),
+                    why="`3 * Unit(aux=h.NoConn())` leaves the consumed scalar listed by the NoConn: a reader that counts it refuses the valid design as a multiply-connected NoConn (or merges / rewires nets of an instance that was replaced)")
+    if m_ < 4:
+        raise AnalysisError(f"anchor-vanished: {m_} reader(s) of `_connected_ports` in hdl21/elab; 4 were confirmed by reading")
